@@ -39,6 +39,7 @@ type okEv struct {
 	want     bool // for bool results: the value that counts as success
 	boolMode bool
 	sticky   bool // a later matching call does not reset an established event
+	reset    func(ssa.Instruction) bool
 }
 
 // newOkEv: event "a call matching isCall returned a nil error" (error mode).
@@ -123,6 +124,9 @@ func (e *okEv) init(fn *ssa.Function) {
 func (e *okEv) Name() string { return e.name }
 
 func (e *okEv) Instr(st uint8, ins ssa.Instruction) uint8 {
+	if e.reset != nil && e.reset(ins) {
+		return 0
+	}
 	switch x := ins.(type) {
 	case *ssa.Call:
 		if e.isCall(x) {
